@@ -56,6 +56,7 @@ import algebra_C04 as ALG
 import aln_C04 as A
 import hist_C04 as H
 import impl_C04 as I
+import names_C04 as NM
 from common import REPLAYS, Run, main_wrapper
 from tlc import Scratch, read_emitted, run_tlc
 
@@ -497,6 +498,10 @@ def run_universe(ukey):
         lst.sort(key=lambda t: (t[0], t[1]))
     rep.stats["spec_states"] = len(u["looks"])
     rep.stats["spec_transitions"] = sum(len(v) for v in u["trans"].values())
+    if G["level"] == "names":
+        for lvl in NM.LEVELS:
+            NM.check_universe(rep, G, lvl, ukey, u)
+        return rep.dump()
     if G["level"] == "aln":
         # Alignment.add_feature and a hand-filled database differ only in who writes the rows: alternate by universe
         pick = (zlib.crc32(ukey.encode()) ^ G["seed"]) % 2
@@ -513,9 +518,10 @@ _UKEY = {
     "seq": re.compile(r'^"\{\\"from\\":\[(\d+,\[\[[0-9,\[\]]*?\]\]),'),
     "aln": re.compile(r'^"\{\\"from\\":\[(\[[0-9,]*\],\[[0-9,]*\],\[\[[0-9,\[\]]*?\]\],\\"[+-]\\"),'),
 }
-_NKEY = {"seq": 2, "aln": 4}
+_NKEY = {"seq": 2, "aln": 4, "names": 3}
 _ACT = re.compile(r'\\"act\\":\\"(\w+)\\"')
-_ACTIONS = {"seq": {"Universe", "Look", "Slice", "Rc", "RevSlice", "Copy", "FeatSlice", "Degap"}, "aln": {"Universe", "Look", "Slice", "Rc"}}
+_ACTIONS = {"seq": {"Universe", "Look", "Slice", "Rc", "RevSlice", "Copy", "FeatSlice", "Degap"}, "aln": {"Universe", "Look", "Slice", "Rc"},
+            "names": {"Universe", "Look", "Slice", "Rc"}}
 
 
 def split_by_universe(emit, scratch, name, level):
@@ -529,7 +535,7 @@ def split_by_universe(emit, scratch, name, level):
                 continue
             a = _ACT.search(line)
             acts[a.group(1) if a else "?"] += 1
-            m = _UKEY[level].match(line)
+            m = _UKEY[level].match(line) if level in _UKEY else None
             if m is None:
                 r = json.loads(line)
                 r = json.loads(r) if isinstance(r, str) else r
@@ -560,7 +566,7 @@ def load_universe(path):
         elif act == "Look":
             u["looks"][dumps(st)] = r
         else:
-            u["trans"][dumps(st)].append((act, r["args"], dumps(r["to"]), r["obs"]))
+            u["trans"][dumps(st)].append((act, r["args"], dumps(r["to"]), r.get("obs")))
     return u
 
 
@@ -571,7 +577,7 @@ class TlcJob:
         self.name, self.level = name, level
         self.emit = scratch / f"emit-{name}.ndjson"
         self.res = self.err = None
-        spec = {"seq": "Annotation", "aln": "AnnotationAln", "hist": "AnnotationHistory"}[level]
+        spec = {"seq": "Annotation", "aln": "AnnotationAln", "hist": "AnnotationHistory", "names": "AnnotationNames"}[level]
 
         def work():
             try:
@@ -600,7 +606,7 @@ def stage(run, scratch, job, totals, tm, edge_rate, window_rate, algebra_rate=0.
     os.unlink(job.emit)
     if not files:
         raise RuntimeError("TLC emitted nothing")
-    G.update(files=files, seed=run.seed, tier=run.tier, edge_rate=edge_rate, window_rate=window_rate, level=level, algebra_rate=algebra_rate)
+    G.update(files=files, seed=run.seed, tier=run.tier, edge_rate=edge_rate, window_rate=window_rate, level=level, algebra_rate=algebra_rate, names_rate=window_rate)
     tm[f"{name}.emitted"] = nrec
     tm[f"{name}.universes"] = len(files)
     tm[f"{name}.split_s"] = round(time.time() - t0, 1)
@@ -683,6 +689,8 @@ def replay_file_detail(d):
         return A.replay(d)
     if d.get("level") == "history":
         return H.replay(d)
+    if d.get("level") == "names":
+        return NM.replay(d)
     kind, mode = d["kind"], d.get("mode", "add")
     seq, _ = I.make_universe(kind, mode, d["root"], d["offset"], d["features"], d.get("via"))
     print(f"{kind} {mode} root {d['root']!r} offset {d['offset']} features {d['features']}")
@@ -729,6 +737,8 @@ def check(run: Run):
             ("aln", "MC_Annotation_aln_quick.cfg", "aln", float(env("VERIF_C04_EDGES", "0.06")), 0),
             # every interleaving of 3 calls (slice / rc / copy / degap / to_rna / add_feature on any object made so far)
             ("hist", "MC_Annotation_hist_quick.cfg", "hist", float(env("VERIF_C04_HIST", "0.25")), 0),
+            # look-alike sequence names / feature names / biotypes in one shared db: a seeded sample of the queries of every view
+            ("names", "MC_Annotation_names.cfg", "names", 0, float(env("VERIF_C04_NAMES", "0.25"))),
         ]
     else:
         plan = [
@@ -740,6 +750,7 @@ def check(run: Run):
             ("views", "MC_Annotation_thorough.cfg", "seq", float(env("VERIF_C04_EDGES", "0.05")), float(env("VERIF_C04_WINDOWS", "0.07"))),
             # every interleaving of 4 calls: a seeded sample of the histories (all of depth <= 3 are in the quick configuration)
             ("hist", "MC_Annotation_hist_thorough.cfg", "hist", float(env("VERIF_C04_HIST", "0.07")), 0),
+            ("names", "MC_Annotation_names.cfg", "names", 0, 1.0),
         ]
     # share of the states on which the feature algebra / masking is exercised as well
     alg_rates = {"views": float(env("VERIF_C04_ALGEBRA", "0.12" if tier == "quick" else "0.05")), "small": float(env("VERIF_C04_ALGEBRA", "0.5")),
@@ -749,7 +760,7 @@ def check(run: Run):
         plan = [p for p in plan if p[0] in only.split(",")]
     with Scratch("C04") as scratch:
         # all model-checking runs start now (they share the TLC worker budget) and are replayed in order as they finish
-        share = ({"small": 1, "views": 3, "aln": 3, "hist": 1} if tier == "thorough" else {"views": 4, "aln": 2, "hist": 2}) if len(plan) >= 3 else {}
+        share = ({"small": 1, "views": 2, "aln": 3, "hist": 1, "names": 1} if tier == "thorough" else {"views": 3, "aln": 2, "hist": 2, "names": 1}) if len(plan) >= 3 else {}
         jobs = [TlcJob(scratch, name, cfg, level, share.get(name, max(2, NPROC // len(plan)))) for name, cfg, level, _, _ in plan]
         try:
             for job, (_, _, level, er, wr) in zip(jobs, plan):
@@ -762,7 +773,7 @@ def check(run: Run):
                 job.thread.join()
     cases = (totals["queries"] + totals["window_queries"] + totals["slices"] + totals["created"] + totals["algebra"]
              + totals["aln_queries"] + totals["aln_slices"] + totals["aln_projections"] + totals["aln_created"]
-             + totals["aln_region_queries"] + totals["aln_algebra"] + 2 * totals["history_objects"])
+             + totals["aln_region_queries"] + totals["aln_algebra"] + 2 * totals["history_objects"] + totals["names_queries"])
     run.cov["traces_validated_against_impl"] = totals["states"] + totals["transitions"] + totals["histories"]
     run.cov["evaluations"] = cases
     run.cov["distinct_nontrivial"] = totals["distinct_nontrivial"]
